@@ -25,6 +25,7 @@ pub fn dispatch(ctx: &Ctx, rep: &mut Report) {
     if ctx.leg == "miri" {
         match ctx.check.as_str() {
             "C15" => miri::c15(ctx, rep),
+            "C16" => miri::c16(ctx, rep),
             "C18" => miri::c18(ctx, rep),
             _ => {},
         }
